@@ -251,7 +251,7 @@ impl SixelParser {
             }
             '-' => {
                 self.sixel_cursor.x = 0;
-                self.sixel_cursor.y += 1;
+                self.sixel_cursor.y = self.sixel_cursor.y.checked_add(1).ok_or(ParserError::InvalidPictureSize)?;
             }
             '$' => {
                 self.sixel_cursor.x = 0;
